@@ -8,7 +8,7 @@
     succeed), index.Builder (documents handed to Add are the documents of the shard, with the skip
     rewriting of Builder.Add/DocChecker.Check modelled by [builder_view]; the too-many-trigrams rule is
     out of the generator's reach and not modelled). *)
-From ZV Require Import Lib.Base.
+From ZV Require Import Lib.Base Model.IgnoreFile.
 
 Definition bytes := list N.
 Definition bytes_eqb : bytes -> bytes -> bool := list_eqb N.eqb.
@@ -200,14 +200,15 @@ Fixpoint ms_eqb (a b : list doc) : bool :=
   | x :: a' => match remove_first x b with Some b' => ms_eqb a' b' | None => false end
   end.
 
-(** directory case: ignored dir names, SizeMax, base name of the root, the root's children, the rel
-    paths (joined) on which the real ignore.Matcher parsed from the candidate ignore content says
-    "match", result code (0 ok, 1 error, 2 panic) and the documents read back from the shards. *)
-Definition c15dcase := (list bytes * N * bytes * list (bytes * node) * list bytes * N * list doc)%type.
+(** directory case: ignored dir names, SizeMax, base name of the root, the root's children, the (pattern, path)
+    pairs on which the real glob engine says "match" (patterns: the harness' own reading of the candidate ignore
+    content; the MODEL derives the patterns it looks up from the ignore file it finds in the tree, Model/IgnoreFile.v),
+    result code (0 ok, 1 error, 2 panic) and the documents read back from the shards. *)
+Definition c15dcase := (list bytes * N * bytes * list (bytes * node) * list (bytes * bytes) * N * list doc)%type.
 
 Definition c15d_ok (c : c15dcase) : bool :=
-  let '(igd, size_max, root_base, ch, matched, res, docs) := c in
-  let matcher := fun (_ : bytes) (p : list bytes) => mem_name (join_path p) matched in
+  let '(igd, size_max, root_base, ch, tab, res, docs) := c in
+  let matcher := fun (content : bytes) (p : list bytes) => ignore_match (table_glob tab) content (join_path p) in
   N.eqb res 0 && ms_eqb (index_arg matcher igd (N.to_nat size_max) root_base ch) docs.
 Definition c15d_mismatches (cs : list c15dcase) : list N := bad_indexes c15d_ok cs.
 
